@@ -23,6 +23,12 @@ def repl(x: Real, n: Int) -> Seq(Real):
 
 
 @spec
+def desc(n: Int, k: Int) -> Seq(Real):
+    """the first k entries of (n, n-1, ..., 1)"""
+    return () if k <= 0 else desc(n, k - 1) + (n - k + 1,)
+
+
+@spec
 def isum(v: Seq(Int), n: Int) -> Int:
     return 0 if n <= 0 else isum(v, n - 1) + v[n - 1]
 
